@@ -193,22 +193,28 @@ pub fn apply_usk_op(w: &mut World, user: usize, bytes: &[u8], op: &UskOp) -> Opt
         }
         UskOp::DropSecret { i, k } => {
             let r = p.rights.get_mut(*i)?;
-            if r.1.len() < 2 || *k >= r.1.len() {
+            if r.1.len() < 2 {
                 return None;
             }
-            r.1.remove(*k);
+            let k = *k % r.1.len();
+            r.1.remove(k);
         }
         UskOp::DupSecret { i, k } => {
             let r = p.rights.get_mut(*i)?;
-            let s = r.1.get(*k)?.clone();
-            r.1.insert(*k, s);
+            let k = *k % r.1.len().max(1);
+            let s = r.1.get(k)?.clone();
+            r.1.insert(k, s);
         }
         UskOp::SwapSecrets { i, k } => {
             let r = p.rights.get_mut(*i)?;
-            if *k + 1 >= r.1.len() {
+            if r.1.len() < 2 {
                 return None;
             }
-            r.1.swap(*k, *k + 1);
+            let k = *k % (r.1.len() - 1);
+            if r.1[k] == r.1[k + 1] {
+                return None;
+            }
+            r.1.swap(k, k + 1);
         }
         UskOp::HybridToClassicShift { i } => {
             if *i + 1 >= p.rights.len() {
@@ -355,9 +361,10 @@ pub fn apply_usk_op(w: &mut World, user: usize, bytes: &[u8], op: &UskOp) -> Opt
             if *i == *j || *i >= p.rights.len() || *j >= p.rights.len() {
                 return None;
             }
-            if *k >= p.rights[*i].1.len() || *l >= p.rights[*j].1.len() {
+            if p.rights[*i].1.is_empty() || p.rights[*j].1.is_empty() {
                 return None;
             }
+            let (k, l) = (&(*k % p.rights[*i].1.len()), &(*l % p.rights[*j].1.len()));
             let a = p.rights[*i].1[*k].clone();
             let b = p.rights[*j].1[*l].clone();
             if a == b {
